@@ -483,6 +483,12 @@ func Analyze(tr *Trace) *Analyzer {
 				}
 				for _, c := range st.Calls {
 					if c.Op == "Remove" && c.Err == "" {
+						if c.Kind == "URR" && c.Reports == 0 {
+							// the data plane removed the URR without handing back a final report (forwarder.Empty does that):
+							// the session keeps the URR's record and will name it again when it is torn down - tolerated
+							a.StaleIntra++
+							continue
+						}
 						delete(target.req[c.Kind], c.ID)
 					}
 				}
